@@ -111,6 +111,7 @@ def main(argv=None):
         else:
             i += 1
     seed = int(os.environ.get('VERIF_SEED', '0') or 0)
+    os.environ['PBSYM_TIER'] = tier
     sys.path.insert(0, ROOT)
     sys.path.insert(0, SRC)
     modname = 'harness.' + prop
@@ -143,7 +144,7 @@ def main(argv=None):
     known = load_known(prop)
     known_state = []
     for e in known:
-        r = run_replay(modname, e['condition'], e['witness'], e.get('shard') or {}, e.get('bounds') or {})
+        r = run_replay(e.get('module') or modname, e['condition'], e['witness'], e.get('shard') or {}, e.get('bounds') or {})
         validated += 1
         if r.get('violated'):
             known_lines.append('KNOWN-FINDING: property=%s %s [%s]' % (prop, e['what'], e['id']))
@@ -172,7 +173,7 @@ def main(argv=None):
                              'witness_tag': c.get('nontrivial')}))
     ncpu = int(os.environ.get('VERIF_JOBS', '0') or 0) or min(16, os.cpu_count() or 4)
     with ThreadPoolExecutor(max_workers=ncpu) as ex:
-        results = list(ex.map(lambda j: run_worker(modname, j[0]['fn'], j[1]), jobs))
+        results = list(ex.map(lambda j: run_worker(j[0].get('module') or modname, j[0]['fn'], j[1]), jobs))
 
     # ---- 3. direct SMT obligations generated from the source (E4), if the harness has any
     extra = []
@@ -207,11 +208,11 @@ def main(argv=None):
         if r.get('state') == 'confirmed':
             continue
         if r.get('state') == 'counterexample':
-            rp = run_replay(modname, c['fn'], r['args'], spec['shard'], spec['bounds'])
+            rp = run_replay(c.get('module') or modname, c['fn'], r['args'], spec['shard'], spec['bounds'])
             validated += 1
             row['replay'] = rp
             if rp.get('violated'):
-                blob = {'property': prop, 'module': modname, 'condition': c['fn'], 'args': r['args'],
+                blob = {'property': prop, 'module': c.get('module') or modname, 'condition': c['fn'], 'args': r['args'],
                         'shard': spec['shard'], 'bounds': spec['bounds'], 'solver_message': r.get('message'),
                         'replay_detail': rp.get('detail')}
                 h = hashlib.sha256(json.dumps(blob, sort_keys=True, default=repr).encode()).hexdigest()[:10]
